@@ -20,6 +20,9 @@ META = {
                 for t in ("quick", "thorough")},
     "assumptions": ["diagnostic counters (tracing dicts, intersection_data_points) are not part of the result and not compared"],
 }
+META["rule"] += '; round 7: mappings with a default factory (complete for to_array/collapsed, which require every stored value; incomplete for reindexed, which lets values be left out)'
+for _t in META["require"]:
+    META["require"][_t] = list(META["require"][_t]) + ['class:mapping_is_a_defaultdict']
 
 
 def shards(tier):
